@@ -173,8 +173,9 @@ class BaseSection(base.Sectionable):
 
         # Make sure name cannot be set to None or empty
         if not new_value:
-            self._name = self._id
-            return
+            new_value = self._id
+            if self.name == new_value:
+                return
 
         curr_parent = self.parent
         if hasattr(curr_parent, "sections") and new_value in curr_parent.sections:
